@@ -366,6 +366,17 @@ theorem stateful_numberer_shape {σ : Type} (nm : σ → Int → Nat × σ) (num
   subst hq
   exact ⟨syncRankS_shape nm num w q a s, syncRankS_seq nm w q (a, s)⟩
 
+/-- Any numberer object, equipped with a counter of its calls: it is called exactly once per index that the sync adds
+to the index set (the counter grows by the growth of the index set) — on the object the caller passed in, whose state
+after the sync is the state after all these calls.  (A numberer that is copied per message, or called for indices
+that are already there, violates this.) -/
+theorem numberer_called_once_per_new_index {σ : Type} (nm : σ → Int → Nat × σ) (w : World) (q : Nat)
+    (st : RankState) (s : σ) (c : Nat) :
+    c ≤ (syncRankS (counted nm) w q (st, (s, c))).2.2 ∧
+    (syncRankS (counted nm) w q (st, (s, c))).1.idx.length =
+      st.idx.length + ((syncRankS (counted nm) w q (st, (s, c))).2.2 - c) :=
+  calls_recvAllS nm q (st, (s, c)) (inbox w q) c st.idx.length ⟨Nat.le_refl _, by simp⟩
+
 /-- The counting numberer (`base, base+1, …`, state = number of calls so far): it is called exactly once per index
 that the sync adds (the call counter grows by the growth of the index set), nothing known before is lost, every new
 pair gets a number from the block handed out during this sync, and no number is given twice. -/
@@ -501,5 +512,10 @@ example : ∃ s2, (sync (fun g => (2000 + g).toNat) (deleteCopies exDel (sync ex
 /-- the counting numberer on the example: rank 2 restores two indices with the numbers 2000 and 2001, two calls -/
 example : ((syncS (countingNumberer 2000) exW [0, 0, 0])[2]?).map (fun x => (x.1.idx, x.2)) =
     some ([⟨3, 1, 2000⟩, ⟨4, 2, 2001⟩, ⟨6, 1, 2⟩], 2) := by decide
+
+/-- the slot-recycling numberer of the harness on the example: rank 2 had the slots 0 and 1 freed by its deletions and
+gets them back, two calls, free list empty afterwards -/
+example : ((syncS (counted slotNumberer) exW [(([], 3000), 0), (([0], 3000), 0), (([0, 1], 3000), 0)])[2]?).map
+    (fun x => (x.1.idx, x.2)) = some ([⟨3, 1, 0⟩, ⟨4, 2, 1⟩, ⟨6, 1, 2⟩], (([], 3000), 2)) := by decide
 
 end DV.C13
